@@ -3,7 +3,8 @@
    Only statements, each closed by [exact] of a lemma proved in Proofs/.
    Runtime residue (not a theorem of any Gallina model): Go scheduler and
    memory model, fairness, completeness of the race detector. *)
-From PV Require Import Base.Prelude Model.Locks Model.LocksOps Proofs.Locks Proofs.LocksOps.
+From PV Require Import Base.Prelude Base.Text Model.Locks Model.LocksOps Model.LocksKnown Proofs.Locks Proofs.LocksOps.
+Open Scope string_scope.
 Open Scope nat_scope.
 
 (* The nesting graph of the transcribed operations (held class -> acquired
@@ -64,3 +65,112 @@ Theorem C09_sends_hold_no_lock :
   forallb (fun o => sends_unlocked op [] (flat op (template o))) all_ops = true.
 Proof. exact sends_hold_no_lock. Qed.
 Print Assumptions C09_sends_hold_no_lock.
+
+(* ---------------------------------------------------------------------- *)
+(* Lockset.  Full strength ([lockset_holds]: no pair of operations allowed to overlap has an unprotected
+   conflicting pair of accesses) is REFUTED by the faithful model; the failing class is spelled out in
+   Model/LocksKnown.v (one key per operation pair and field) and the statement holds exactly outside it. *)
+
+Theorem C09_lockset_refuted : exists a b f, concurrent_allowed a b = true /\ racyb a b f = true.
+Proof. exact lockset_refuted. Qed.
+Print Assumptions C09_lockset_refuted.
+
+(* the refutation as an execution: Parse.fast about to write, purge about to read Host.LastSeen of one row *)
+Theorem C09_race_state_reachable :
+  reachable op template race_init race_witness /\ race_stateb race_witness 0 1 = true.
+Proof. exact race_state_reachable. Qed.
+Print Assumptions C09_race_state_reachable.
+
+Theorem C09_lockset_partial : forall a b f,
+  concurrent_allowed a b = true -> known_C09 (race_key a b f) = false -> racyb a b f = false.
+Proof. exact lockset_partial. Qed.
+Print Assumptions C09_lockset_partial.
+
+(* the recorded class contains nothing else: every recorded race key is an unprotected conflict of the model *)
+Theorem C09_lockset_known_exact : forall a b f,
+  known_C09 (race_key a b f) = true -> concurrent_allowed a b = true /\ racyb a b f = true.
+Proof. exact lockset_known_are_real. Qed.
+Print Assumptions C09_lockset_known_exact.
+
+Example C09_lockset_partial_nonvacuous :
+  concurrent_allowed Capture IsCaptured = true /\ known_C09 (race_key Capture IsCaptured FMacCaptured) = false /\
+  existsb (fun a => existsb (fun b => conflictb a b) (taccs op [] (flat op (template IsCaptured))))
+          (taccs op [] (flat op (template Capture))) = true.
+Proof. exact lockset_partial_nonvacuous. Qed.
+Print Assumptions C09_lockset_partial_nonvacuous.
+
+(* ---------------------------------------------------------------------- *)
+(* Channels: no send on / close of a closed channel.  REFUTED (Close vs the notification senders, Close vs
+   Close, and the handlers' Close); exact outside the recorded panic keys. *)
+
+Theorem C09_no_send_on_closed_refuted :
+  reachable op template soc_init soc_witness /\ panicked op soc_witness = true.
+Proof. exact send_on_closed_refuted. Qed.
+Print Assumptions C09_no_send_on_closed_refuted.
+
+Theorem C09_double_close_refuted :
+  reachable op template dc_init dc_witness /\ panicked op dc_witness = true.
+Proof. exact double_close_refuted. Qed.
+Print Assumptions C09_double_close_refuted.
+
+Theorem C09_no_send_on_closed_partial : forall a b,
+  known_C09 ("panic:" ++ pair_name a b ++ ":send-on-closed-channel") = false ->
+  known_C09 ("panic:" ++ pair_name a b ++ ":close-of-closed-channel") = false ->
+  predicted_send_on_closed a b = false /\ predicted_double_close a b = false.
+Proof. exact no_send_on_closed_partial. Qed.
+Print Assumptions C09_no_send_on_closed_partial.
+
+(* in the semantics a step panics only on a send to / close of a channel that is already closed *)
+Theorem C09_panic_needs_closed_channel : forall s i s',
+  step op template s i = Some s' -> panicked op s = false -> panicked op s' = true ->
+  exists t c r, nth_error (threads op s) i = Some t /\
+    (rest op t = Send op c :: r \/ rest op t = CloseCh op c :: r) /\ chan_closed op s c = true.
+Proof. exact send_panics_only_if_closed. Qed.
+Print Assumptions C09_panic_needs_closed_channel.
+
+(* ---------------------------------------------------------------------- *)
+(* Close stops the loops: each background loop of the table (session minute loop, NIC monitor, ARP and ICMPv6
+   spoof loops) leaves at its next pass once its component's Close has run, and that Close does close the
+   channel / set the flag the loop tests.  (The pass itself completes by C09_progress.) *)
+
+Theorem C09_close_stops_loops : forall o rows closed flag,
+  is_loop o = true ->
+  (forall c, stop_chan o = Some c -> closed c = true) ->
+  (forall f, stop_flag o = Some f -> flag (f, 0) = true) ->
+  iter_exits closed flag (body op template o rows) = true.
+Proof. exact close_stops_loops. Qed.
+Print Assumptions C09_close_stops_loops.
+
+Theorem C09_closers_establish :
+  forallb (fun o =>
+    match stop_chan o with Some c => closes op (template (closer o)) c | None => true end &&
+    match stop_flag o with
+    | Some f => existsb (fun a => match a with TSetFlag f' => field_eqb f f' | _ => false end) (flat op (template (closer o)))
+    | None => true
+    end) loops = true.
+Proof. exact closers_establish. Qed.
+Print Assumptions C09_closers_establish.
+
+Example C09_loop_continues_when_open :
+  iter_exits (fun _ => false) (fun _ => false) (body op template ArpSpoofLoop [1]) = false.
+Proof. exact loop_continues_when_open. Qed.
+Print Assumptions C09_loop_continues_when_open.
+
+(* ---------------------------------------------------------------------- *)
+(* Table mutations are serialised: every write to the host map, the MAC slice or a HostList happens with the
+   session lock held exclusively (so the C05 invariants, re-established by each such section, hold at every
+   point where no mutation is in progress, in particular at quiescence). *)
+
+Theorem C09_mutations_serialised :
+  forallb (fun o => forallb (fun a =>
+     match a with (f, w, h) =>
+       if w && structure_field f then existsb (fun x => lockc_eqb (fst x) LSess && is_W (snd x)) h else true
+     end) (taccs op [] (flat op (template o)))) all_ops = true.
+Proof. exact mutations_serialised. Qed.
+Print Assumptions C09_mutations_serialised.
+
+Example C09_mutations_exist :
+  existsb (fun a => match a with (f, w, _) => w && structure_field f end)
+          (taccs op [] (flat op (template Purge))) = true.
+Proof. exact mutations_exist. Qed.
+Print Assumptions C09_mutations_exist.
